@@ -320,4 +320,22 @@ theorem dirichlet_zero_at_boundary (c : BCConfig) (I : ℕ) (hnb : 2 ≤ c.nb) (
 example : ∀ j, j < 4 → j ≠ 0 → (fun i j => if i = j then (1 : ℚ) else 0) 0 j = 0 := by
   intro j _ hj; simp [Ne.symm hj]
 
+/-! ### function right-hand sides -/
+
+/-- For `rhoFactor ≡ 1` (at the quadrature points) the right-hand side vector of `solveEquationForFunction` as the
+    code computes it today (`rhoVecNoE`) is the one of the stated equation `… = E rho` (`rhoVec`); the two entry
+    points then solve the same problem.  For any other `rhoFactor` they differ (negative witness below): the
+    known finding `C14:function-rhs-ignores-rhoFactor`. -/
+theorem function_rhs_agrees_when_rhoFactor_one (Q : Quad K) (co : Coefs K) (P : ℕ → ℕ → ℕ → K) (rhoAt : ℕ → ℕ → K)
+    (hE : ∀ c q, co.E c q = 1) (j : ℕ) : rhoVec Q co P rhoAt j = rhoVecNoE Q P rhoAt j := by
+  unfold rhoVec rhoVecNoE
+  exact quadSum_congr Q _ _ _ (fun c q => by rw [hE c q, mul_one])
+
+example : ∀ c q, exCo.E c q = 1 := fun _ _ => rfl
+
+/-- negative witness: with `rhoFactor ≡ 2` the unrepaired right-hand side is half of the stated one -/
+example : rhoVec exQuad { exCo with E := fun _ _ => 2 } exP (fun _ _ => 1) 0
+    = 2 * rhoVecNoE exQuad exP (fun _ _ => 1) 0 ∧ rhoVecNoE exQuad exP (fun _ _ => 1) 0 ≠ 0 := by
+  norm_num [rhoVec, rhoVecNoE, quadSum, exQuad, exP, List.range'_succ, List.range_succ, List.flatMap_cons]
+
 end PygyroVerif.C14
